@@ -47,6 +47,20 @@ T_Chunk ==
     /\ ChkP(E.same_reads = 1, {"C16"}, "short-reads-change-the-values-read")
     /\ UNCHANGED vars
 
-TNext == T_Reset \/ T_Ref \/ T_RRef \/ T_WFault \/ T_RFault \/ T_Chunk
+\* binding of ChunkSpec's read loop to the recorded device reads of a chunked run: each maximal run of
+\* consecutive reads asks for what is still missing of one page and ends exactly when the page is full or the
+\* device reports end of file
+RECURSIVE LoopOk(_, _, _)
+LoopOk(lp, i, remaining) ==
+    IF i > Len(lp) THEN remaining = 0 \/ lp[Len(lp)][2] = 0
+    ELSE /\ lp[i][1] = remaining /\ lp[i][2] <= remaining
+         /\ (lp[i][2] = 0 => i = Len(lp))
+         /\ (remaining - lp[i][2] = 0 => i = Len(lp))
+         /\ LoopOk(lp, i + 1, remaining - lp[i][2])
+T_ReadLoops ==
+    /\ IsEv("c16_readloops")
+    /\ \A k \in 1..Len(E.loops) : ChkP(LoopOk(E.loops[k], 1, 1024), {"C16"}, "page-reload-loop-does-not-follow-ChunkSpec")
+    /\ UNCHANGED vars
+TNext == T_ReadLoops \/ T_Reset \/ T_Ref \/ T_RRef \/ T_WFault \/ T_RFault \/ T_Chunk
 TSpec == TInit /\ [][TNext]_<<vars, l>>
 =============================================================================
